@@ -68,6 +68,12 @@ NDSize DataSpace::extent() const {
 
 
 void DataSpace::hyperslab(const NDSize &count, const NDSize &start, H5S_seloper_t op) {
+    // HDF5 reads one entry per dimension of the dataspace from both arrays
+    int ndims = H5Sget_simple_extent_ndims(hid);
+    if (ndims < 0 || count.size() < static_cast<size_t>(ndims) || start.size() < static_cast<size_t>(ndims)) {
+        throw InvalidRank("DataSpace::hyperslab(): count and offset need an entry for every dimension of the data");
+    }
+
     HErr status = H5Sselect_hyperslab(hid, op, start.data(), nullptr, count.data(), nullptr);
     status.check("DataSpace::hyperslab(): H5Sselect_hyperslab() failed!");
 }
